@@ -940,7 +940,8 @@ class CSSStyleSheet(cssutils.stylesheets.StyleSheet):
 
         if rule.IMPORT_RULE == rule.type and not rule.hrefFound:
             # try loading the imported sheet which has new relative href now
-            rule._loadHref(rule.href)
+            # (not if that is the URL which was tried before)
+            rule._loadHref(rule.href, retry=False)
 
         return index
 
